@@ -291,11 +291,121 @@ def big_wallet_crash(rec, n):
     return len(rec.snaps), bad
 
 
+def receive_script_crashes(rec0):
+    """the command that hands out a receiving address (skepticoin-receive), killed at every file-operation and output
+    boundary, followed by a second invocation on whatever the first left on disk: an address the user has SEEN must not
+    be shown again while unused keys remain"""
+    import contextlib
+    import sys
+    from skepticoin import wallet as W
+    from skepticoin.scripts import receive
+
+    class Rec(crashfs.Recorder):
+        def __init__(self, watch, out):
+            crashfs.Recorder.__init__(self, watch)
+            self.out = out
+
+        def snap(self, label):
+            if self.active:
+                self.snaps.append((label, self.view(), ''.join(self.out.buf)))
+
+    class Out:
+        def __init__(self):
+            self.buf = []
+            self.rec = None
+
+        def write(self, s):
+            self.buf.append(s)
+            if self.rec is not None:
+                self.rec.snap('output(%d chars)' % len(s))
+            return len(s)
+
+        def flush(self):
+            pass
+
+    def addresses(text):
+        return [ln for ln in text.split('\n') if ln.startswith('SKE')]
+
+    def invoke(name, out):
+        argv = sys.argv
+        sys.argv = ['skepticoin-receive', name]
+        try:
+            with contextlib.redirect_stdout(out):
+                receive.main()
+        finally:
+            sys.argv = argv
+    bad = []
+    n = 0
+    try:
+        for handed_out_before in (0, 1, 2):
+            for fn in ('wallet.json', 'wallet.json.new'):
+                if os.path.exists(fn):
+                    os.remove(fn)
+            w = new_wallet()
+            for i in range(handed_out_before):
+                w.get_annotated_public_key('earlier %d' % i)
+            rec0.active = False
+            W.save_wallet(w)
+            out = Out()
+            rec = Rec(['wallet.json', 'wallet.json.new'], out)
+            out.rec = rec
+            crashfs.install(W, rec)
+            rec.snap('start')
+            try:
+                invoke('alice', out)
+            except BaseException as e:
+                bad.append(('receive-script-raises', "skepticoin-receive raises %r" % (e,), (('receive-script', handed_out_before),)))
+                continue
+            rec.snap('end')
+            snaps = list(rec.snaps)
+            rec.active = False
+            for label, view, shown in snaps:
+                n += 1
+                for fn, data in view.items():
+                    if data is None:
+                        if os.path.exists(fn):
+                            os.remove(fn)
+                    else:
+                        with open(fn, 'wb') as f:
+                            f.write(data)
+                tr = (('receive-script', handed_out_before), ('killed-after', label))
+                if view.get('wallet.json') is None:
+                    bad.append(('wallet-file-missing-after-crash', "wallet.json does not exist after a crash at %s" % label, tr))
+                    continue
+                try:
+                    with open('wallet.json') as f:
+                        left = W.Wallet.load(f)
+                except Exception as e:
+                    bad.append(('wallet-file-unreadable-after-crash', "wallet.json cannot be loaded after a crash at %s: %r" % (label, e), tr))
+                    continue
+                out2 = Out()
+                try:
+                    invoke('bob', out2)
+                except BaseException as e:
+                    bad.append(('receive-script-raises', "second invocation raises %r after a crash at %s" % (e, label), tr))
+                    continue
+                again = set(addresses(shown)) & set(addresses(''.join(out2.buf)))
+                if again and len(left.unused_public_keys) > 0:
+                    bad.append(('address-shown-twice-across-crash', "killed at %s the command had already shown an address; the "
+                                "next invocation shows the same address to someone else although %d unused keys remained" % (
+                                    label, len(left.unused_public_keys)), tr))
+    finally:
+        crashfs.install(W, rec0)
+        rec0.active = True
+    best = {}
+    for k, what, tr in bad:
+        best.setdefault(k, (k, what, tr))
+    return n, list(best.values())
+
+
 def run(ctx):
     depth = 7 if ctx.quick else 9
     stats, bad, wallet_states, rec = search(ctx, depth)
     nb, bad2 = balance_part(ctx, wallet_states)
     nbig, bad3 = big_wallet_crash(rec, 100 if ctx.quick else 400)
+    nrc, bad4 = receive_script_crashes(rec)
+    ctx.cov['receive_command_crash_points'] = nrc
+    bad3 = bad3 + bad4
     for key, what, trace in bad + bad2 + bad3:
         ctx.violation(key, "%s; operations %s" % (what, [' '.join(map(str, o)) for o in trace]), {'trace': [list(o) for o in trace]})
     ctx.cov.update({
@@ -320,6 +430,9 @@ def replay(data, ctx):
     crashfs.install(W, rec)
     if trace and trace[0][0] == 'big':
         n, bad = big_wallet_crash(rec, trace[0][1])
+        return [(k, w) for k, w, _ in bad]
+    if trace and trace[0][0] == 'receive-script':
+        n, bad = receive_script_crashes(rec)
         return [(k, w) for k, w, _ in bad]
 
     class Rnd:
